@@ -385,6 +385,11 @@ func generate(o *options) (*runOutput, error) {
 		}
 		out.results = append(out.results, verifyFunction(w, specs, tt, fn, c))
 	}
+	if cr, err := runCensus(o, w, specs); err != nil {
+		return nil, err
+	} else if cr != nil {
+		out.results = append(out.results, cr)
+	}
 	// lemmas: pure logical facts over spec functions, proved once and then available everywhere
 	for _, ax := range specs.Axioms {
 		if !ax.Lemma {
